@@ -571,7 +571,12 @@ func (p *Program) CalleeName(cc *ssa.CallCommon) string {
 			return p.Name(fn)
 		}
 	}
-	return "dyn:" + p.D(cc.Value)
+	d := p.D(cc.Value)
+	if strings.HasPrefix(d, "closure:") {
+		// a function literal called through the variable that holds it
+		return d[len("closure:"):]
+	}
+	return "dyn:" + d
 }
 
 func (p *Program) ifaceOfMethod(m *types.Func, recvType types.Type) string {
